@@ -22,16 +22,12 @@ Proof. exact mapper_matches_statement_refuted. Qed.
 Print Assumptions C17_mapper_matches_expected_refuted.
 
 (* ... with one witness per guard clause, each violating that clause only
-   (open known findings C17-F2, F3, F5-F8, F11; reproduced on the real code by every run;
-   clauses 1, 4, 9 were deleted when F1, F4, F9 were repaired in /repo) *)
+   (open known findings C17-F2, F5-F8, F11; reproduced on the real code by every run;
+   clauses 1, 3, 4, 9 were deleted when F1, F3, F4, F9 were repaired in /repo) *)
 Theorem C17_clause2_rpc_response_name_refuted :
   wf_definitions witness2 = true /\ findings [] witness2 = [[2%nat]] /\ names_distinct [] witness2 = true
   /\ no_shadow witness2 = true /\ ~ mapper_matches [] witness2.
 Proof. exact clause2_refuted. Qed.
-Theorem C17_clause3_empty_soapaction_refuted :
-  wf_definitions witness3 = true /\ findings [] witness3 = [[3%nat]] /\ names_distinct [] witness3 = true
-  /\ no_shadow witness3 = true /\ ~ mapper_matches [] witness3.
-Proof. exact clause3_refuted. Qed.
 Theorem C17_clause5_document_type_part_refuted :
   wf_definitions witness5 = true /\ findings [] witness5 = [[5%nat]] /\ names_distinct [] witness5 = true
   /\ no_shadow witness5 = true /\ ~ mapper_matches [] witness5.
@@ -54,7 +50,7 @@ Theorem C17_clause10_message_shadows_element_refuted :
 Proof. exact clause10_refuted. Qed.
 Print Assumptions C17_clause10_message_shadows_element_refuted.
 
-(* the theorem: unbounded over all documents of the fragment that satisfy the seven remaining clauses
+(* the theorem: unbounded over all documents of the fragment that satisfy the six remaining clauses
    (any number of services, ports, bindings, operations, parts, headers, faults; document
    and rpc; parts by element and by type; any prefixes and local namespace declarations) *)
 Theorem C17_mapper_matches_expected : forall te d,
@@ -77,13 +73,14 @@ Example C17_guard_inhabited :
 Proof. exact guard_inhabited. Qed.
 
 (* ---- the client ---- *)
-(* content-type text/xml; SOAPAction = the configured action when it is a non-empty string;
-   every other user header preserved; user's SOAPAction kept when none is configured *)
+(* content-type text/xml; SOAPAction = the configured action whenever one is configured (the
+   empty string included); every other user header preserved; the user's own SOAPAction kept
+   when none is configured *)
 Theorem C17_client_headers : forall act h,
   exists h', prepare_headers (Some SOAP_HTTP) act h = Some h'
     /\ hdr_lookup h' s_content_type = Some s_text_xml
-    /\ (forall c a, act = Some (c :: a) -> hdr_lookup h' s_SOAPAction = Some (c :: a))
-    /\ (act = None \/ act = Some [] -> hdr_lookup h' s_SOAPAction = hdr_lookup h s_SOAPAction)
+    /\ (forall a, act = Some a -> hdr_lookup h' s_SOAPAction = Some a)
+    /\ (act = None -> hdr_lookup h' s_SOAPAction = hdr_lookup h s_SOAPAction)
     /\ (forall k, k <> s_content_type -> k <> s_SOAPAction -> hdr_lookup h' k = hdr_lookup h k).
 Proof. exact prepare_headers_soap. Qed.
 Print Assumptions C17_client_headers.
@@ -93,14 +90,9 @@ Theorem C17_client_foreign_transport : forall tr act h,
 Proof. exact prepare_headers_foreign. Qed.
 Print Assumptions C17_client_foreign_transport.
 
-(* "SOAPAction present iff the binding declares one": false (soapAction="" is dropped) ... *)
-Theorem C17_client_soapaction_iff_declared_refuted : ~ soapaction_iff_declared_statement.
-Proof. exact soapaction_iff_declared_refuted. Qed.
-Print Assumptions C17_client_soapaction_iff_declared_refuted.
-
-(* ... true when the declared action is not the empty string *)
+(* SOAPAction present iff the binding declares one — unguarded since the repair of F3
+   (/repo d4f6af6); before, soapAction="" was dropped and this statement was refuted *)
 Theorem C17_client_soapaction_iff_declared : forall act h h',
-  act <> Some [] ->
   prepare_headers (Some SOAP_HTTP) act h = Some h' ->
   hdr_lookup h s_SOAPAction = None ->
   hdr_lookup h' s_SOAPAction = act.
